@@ -75,7 +75,8 @@ static std::string describe(const HttpHdrCc &cc, const bool ok) {
     o << "ok=" << (ok ? 1 : 0) << " flags=";
     bool any = false;
     for (const auto &t : AllTypes) {
-        if (cc.isSet(t.id)) { o << (any ? "," : "") << t.name; any = true; }
+        // (the CC_OTHER bit is bookkeeping, not a directive: the unknown directives are observed through `other`)
+        if (t.id != HttpHdrCcType::CC_OTHER && cc.isSet(t.id)) { o << (any ? "," : "") << t.name; any = true; }
     }
     if (!any) o << "-";
     int32_t v = 0;
